@@ -165,6 +165,9 @@ pub fn c12(run: &'static Run) -> (u64, u64) {
                 },
             }
         }
+        if let Some((t, _)) = &first {
+            run.distinct_outcome(t.iter().map(|x| format!("{}/{}", x.0, x.1.last().map(|i| i.nodes).unwrap_or(0))).collect::<Vec<_>>().join(","));
+        }
         n_sess.fetch_add(1, Ordering::Relaxed);
     });
     let a = n_sess.load(Ordering::Relaxed);
@@ -421,6 +424,7 @@ fn option_scenario_inner(run: &Run, lines: &[String]) {
         true
     };
     for l in lines {
+        run.distinct_outcome(l.clone());
         if l == "go" {
             if !check_go(&mut d) {
                 return;
@@ -588,6 +592,7 @@ fn check_position_cmd(run: &Run, d: &mut Drv, base: &str, base_pos: &Pos, moves:
         return;
     }
     let g = d.uci.verif_game();
+    run.distinct_outcome_sig(g.zobrist.0, || g.to_fen());
     if let Err(e) = mo::compare_with_ref(g, want) {
         vio("position-wrong", format!("after `{line}`: {e} (engine FEN {})", g.to_fen()));
         return;
